@@ -376,6 +376,13 @@ def check_no_tracing_state(ctx):
                     ctx.bad("C17.5", f, x, f"`{short(x, 50)}`: the array check calls into a tracing framework; what it answers depends on the transformation the check runs under "
                             "(axis environment, trace level), not only on type, shape and dtype", construct=f"framework state consulted: {short(x, 50)}")
                     break
+            if (isinstance(x, ast.Attribute) and norm(x) in ("sys._getframe", "inspect.currentframe", "inspect.stack", "traceback.extract_stack", "sys._current_frames")) or \
+                    (isinstance(x, ast.Name) and x.id in ("_getframe", "currentframe") and isinstance(x.ctx, ast.Load)):
+                n += 1
+                bad = True
+                ctx.bad("C17.5", f, x, f"`{short(x, 40)}`: the check path inspects the call stack at call time; who the caller is (the defining scope when called eagerly, a frame of the "
+                        "tracing machinery under jit / vmap / grad) enters the verdict, so the same shapes and dtypes are checked in one case and waved through in the other",
+                        construct=f"call stack consulted: {short(x, 40)}")
             if isinstance(x, ast.Attribute) and norm(x) == "sys.modules":
                 n += 1
                 bad = True
